@@ -23,6 +23,10 @@ class Quiescent(BaseException):
     """the loop would block forever while the scenario still has pending operations"""
 
 
+class Spinning(BaseException):
+    """the loop ran more iterations than the scenario's logical step budget (a callback re-arms itself for ever)"""
+
+
 class _VSelector:
     def __init__(self, loop: "VirtualLoop") -> None:
         self._sel = selectors.DefaultSelector()
@@ -84,6 +88,7 @@ class VirtualLoop(asyncio.SelectorEventLoop):
         self.polls = 0
         self.jumps = 0
         self.allow_block_on_threads = False
+        self.max_iterations: int | None = None  # logical step budget (Spinning is raised beyond it)
         self._before: dict[int, list[Callable[[], Any]]] = {}
         self._after: dict[int, list[Callable[[], Any]]] = {}
         self._every: list[Callable[[int], Any]] = []
@@ -109,6 +114,9 @@ class VirtualLoop(asyncio.SelectorEventLoop):
     def _run_once(self) -> None:  # type: ignore[override]
         self.iteration += 1
         k = self.iteration
+        if self.max_iterations is not None and k > self.max_iterations:
+            self.max_iterations = None
+            raise Spinning(f"event loop still busy after {k} iterations at virtual time {self._vtime:.3f}")
         for fn in self._every:
             fn(k)
         for fn in self._before.pop(k, ()):
